@@ -672,6 +672,52 @@ def hostile_stream(chk, wd):
     return n, hits
 
 
+def poller_stream(chk, wd):
+    """supervisor/poller.py against coq/Life/Poller.v: the real PollPoller and SelectPoller over a scripted select
+    module; every operation word up to depth 3 (thorough 4) over a 14-letter alphabet and random histories; outputs
+    (incl. exceptions) and the final sets compared inside Coq.  Independent judge: an interrupted call (EINTR) must
+    answer ([], []) and must not raise."""
+    import poller_corr as pc
+    depth = 3 if chk.tier == 'quick' else 4
+    nrand = 3000 if chk.tier == 'quick' else 40000
+    cases, kept = [], []
+    hits = 0
+    for kind in (False, True):
+        hist = list(pc.exhaustive(kind, depth)) + [pc.random_history(chk.rng, kind) for _ in range(nrand)]
+        for ops in hist:
+            res = pc.run_history(kind, ops)
+            chk.dist('poller:' + ('select' if kind else 'poll'))
+            for o, a in zip(ops, res[0]):
+                if o[0] == 'poll' and o[1] == ('err', pc.EINTR) and a != ('ready', [], []):
+                    hits += 1
+                    if hits <= 3:
+                        chk.violation({'kind': 'poller: an interrupted readiness call (EINTR) is not answered with ([], []): '
+                                               'the exception would end the main loop',
+                                       'poller': 'SelectPoller' if kind else 'PollPoller', 'ops': ops, 'answers': res[0]})
+            cases.append(pc.case_term(kind, ops, res))
+            kept.append((kind, ops, res))
+    bad, errs = vlib.coq_compare(['SV.Life.Poller'], 'pcase', 'check_pcase', cases, wd, preamble='Open Scope Z_scope.',
+                                 shard=400, tag='poller')
+    for e in errs[:2]:
+        chk.violation({'kind': 'poller model evaluation failed', 'error': e}, nofail=True)
+    for i in bad[:3]:
+        kind, ops, res = kept[i]
+        # shrink to the shortest failing prefix
+        for n in range(1, len(ops) + 1):
+            r2 = pc.run_history(kind, ops[:n])
+            b2, _ = vlib.coq_compare(['SV.Life.Poller'], 'pcase', 'check_pcase', [pc.case_term(kind, ops[:n], r2)], wd,
+                                     preamble='Open Scope Z_scope.', tag='pshr%d_%d' % (i, n))
+            if b2:
+                ops, res = ops[:n], r2
+                break
+        chk.violation({'kind': 'poller model and implementation disagree on this history',
+                       'poller': 'SelectPoller' if kind else 'PollPoller', 'ops': ops, 'answers': res[0],
+                       'readables': res[1], 'writables': res[2], 'registry': res[3],
+                       'explanation': 'coq/Life/Poller.v, about which the c06_poll_* theorems are proved, predicts other answers'},
+                      nofail=True)
+    return len(cases), hits + len(bad)
+
+
 def dynamic_script(rng, U=2):
     """Groups added by RPC at run time, then a shutdown/restart: outside the Coq model (static group set), judged by
     the monitors only (C05 order, exit condition, no fork after the request)."""
@@ -900,6 +946,9 @@ def _run(chk, which, prop_rel, proved, wd):
     if which == 'C06':
         nh, hh = hostile_stream(chk, wd)
         monitor_hits += hh
+        np_, hp = poller_stream(chk, wd)
+        nh += np_
+        monitor_hits += hp
     if which in ('C03', 'C04'):
         nh += config_tie(chk, wd)
     if which in ('C05', 'C02'):
